@@ -239,6 +239,11 @@ fn skip(ctx: &mut Ctx) {
             stream.extend_from_slice(&0x5E47_1AE1u64.to_le_bytes());
             let r = guard(|| { let mut r: &[u8] = &stream; let ok = serialize::skip_option(&mut r).is_ok(); let next = u64::load(&mut r).ok(); (ok, next, r.len()) });
             ctx.expect_eq("skip_option.lands", || format!("skip_option over {}({}) then the next element", label, it.name), &r, &(true, Some(0x5E47_1AE1u64), 0));
+            // The same through readers that return short reads (pipes, buffered files): the position must not depend on it.
+            let r = guard(|| { let mut r = crate::drivers::c06::ShortReader { data: &stream, pos: 0, tick: stream.len() }; let ok = serialize::skip_option(&mut r).is_ok(); let next = u64::load(&mut r).ok(); (ok, next, stream.len() - r.pos) });
+            ctx.expect_eq("skip_option.lands.short_reads", || format!("skip_option over {}({}) through a short-read reader, then the next element", label, it.name), &r, &(true, Some(0x5E47_1AE1u64), 0));
+            let r = guard(|| { let mut r = std::io::BufReader::with_capacity(37, &stream[..]); let ok = serialize::skip_option(&mut r).is_ok(); let next = u64::load(&mut r).ok(); (ok, next) });
+            ctx.expect_eq("skip_option.lands.bufreader", || format!("skip_option over {}({}) through a small BufReader, then the next element", label, it.name), &r, &(true, Some(0x5E47_1AE1u64)));
         }
         ctx.case(hash64(&[3, hash_bytes(it.name.as_bytes())]), true);
         ctx.sample(|| format!("skip: optional holding {} ({} elements), plain and nested, followed by a sentinel", it.name, elements));
